@@ -159,3 +159,46 @@ func WellFormed(l labels.Labels) bool {
 	}
 	return true
 }
+
+// SymStreamFocus is a cheaper stream space: one focus step (fork over all steps) has an
+// arbitrary presence pattern (fork over all subsets), every other step has all series
+// present. Values are symbolic everywhere.
+func SymStreamFocus(name string, nSeries int, shape []int, t0, dt int64) [][]Step {
+	total := 0
+	for _, n := range shape {
+		total += n
+	}
+	return SymStreamFocusAt(name, nSeries, shape, t0, dt, sym.Choice(name+".focus", total), false, 0)
+}
+
+// SymStreamFocusAt: as SymStreamFocus with a given focus step; if concreteOff is set,
+// values outside the focus step are the concrete numbers base+k (k = series index).
+func SymStreamFocusAt(name string, nSeries int, shape []int, t0, dt int64, focus int, concreteOff bool, base float64) [][]Step {
+	var out [][]Step
+	i := 0
+	for b, n := range shape {
+		var batch []Step
+		for s := 0; s < n; s++ {
+			st := Step{T: t0 + int64(i)*dt}
+			for k := 0; k < nSeries; k++ {
+				tag := name + ".b" + itoa(b) + "s" + itoa(s) + "k" + itoa(k)
+				present := true
+				if i == focus {
+					present = sym.Choice(tag+".present", 2) == 1
+				}
+				if present {
+					st.IDs = append(st.IDs, uint64(k))
+					if concreteOff && i != focus {
+						st.Vs = append(st.Vs, base+float64(k))
+					} else {
+						st.Vs = append(st.Vs, sym.Float64(tag))
+					}
+				}
+			}
+			batch = append(batch, st)
+			i++
+		}
+		out = append(out, batch)
+	}
+	return out
+}
